@@ -103,6 +103,12 @@ CLAIMED.update({
          TRANSPORT_NOTE, "5 C33"),
 })
 
+CLAIMED.update({
+ "C41": ("exploration", "deterministic simulation with fault injection: seeded histories of contribute / redeem / k-fold contribute-then-redeem / protected deposit / protected withdraw on one-, two- and multi-resource pools over resources of seeded divisibility, with injected system errors and restarts; exact integer oracle on balances read from the store before and after every transaction",
+         "Redemptions pay at most the pro-rata share per reserve and burn exactly the units handed in; reserve change == -(account change) per resource (nothing lost, change returned); k contributions followed at once by redeeming the minted units never leave the actor with more of a pool resource (dried-out pools exempt, as documented in the blueprint); multi-resource contributions follow the reserve ratio within one unit of divisibility; failed or fault-injected transactions leave reserves and unit supply unchanged. Two recorded known findings (two- and multi-resource pool, repeated contributions) are stepped over and reported as KNOWN-FINDING.",
+         LEDGER_NOTE + " Pool manager rule allow_all; only the latest pool logic (v1.1).", "5 C41"),
+})
+
 PURE = "pure function of one input value: no schedule, clock, I/O, fault or history for a simulator to own (DESIGN section 6)"
 NOT_APPLICABLE = {
  "C16": "key mapping is a pure bijection on keys; " + PURE,
